@@ -222,8 +222,7 @@ def encodeRefAux : Bool → Str → Str → Bytes
 
 def encodeRef (body : Str) : Bytes := encodeRefAux false [] body
 
-/-- does  17:01:00 up  1:03,  0 user,  load average: 0.16, 0.67, 0.62
-USER     TTY      FROM             LOGIN@   IDLE   JCPU   PCPU WHAT contain a multi-character keyword as a contiguous substring? -/
+/-- does the word contain a multi-character keyword as a contiguous substring? -/
 def containsKeyword (w : Str) : Bool :=
   mo5Tokens.any fun e => e.1.length ≥ 2 && (List.range (w.length + 1 - e.1.length)).any fun i => startsWith e.1 (w.drop i)
 
